@@ -195,7 +195,7 @@ package martian
 // I/O on the client connection and message serialisation (net, bufio, net/http):
 // arbitrary effects on memory, but they never rewrite the status, method or
 // close flags of the messages they are given.
-//@ func (net.Conn).SetWriteDeadline, (net.Conn).SetReadDeadline, isTextEventStream, newPatternFlushWriter, (*proxyConn).writeResponse$1, drainBuffer, bicopy, ContextDuration, (*http.Request).Context, (io.Closer).Close, (io.ReadCloser).Close, (io.ReadWriteCloser).Close
+//@ func (net.Conn).SetWriteDeadline, (net.Conn).SetReadDeadline, isTextEventStream, newPatternFlushWriter, (*proxyConn).writeResponse$1, drainBuffer, bicopy, ContextDuration, (io.Closer).Close, (io.ReadCloser).Close, (io.ReadWriteCloser).Close
 //@ trusted
 //@ modifies *
 //@ preserves http.Response.StatusCode http.Response.Close http.Response.Request http.Request.Method http.Request.Close http.Response.Header http.Request.Header http.Request.URL http.Request.Body http.Response.Body proxyConn.* Proxy.* bufio.ReadWriter.* maps(http.Header)
@@ -280,7 +280,7 @@ package martian
 // ---- the per-request handler (C13 L13.1, C04 L4.1, C11 L11.2) ----
 
 // TLS / bufio / MITM plumbing used by handleMITM (crypto and buffering are library behaviour).
-//@ func (*bufio.ReadWriter).Peek, (*bufio.Reader).Peek, (*bufio.ReadWriter).Read, (*bufio.Reader).Read, tls.Server, (*tls.Conn).HandshakeContext, (*tls.Conn).ConnectionState, (*mitm.Config).TLSForHost, (*mitm.Config).HandshakeErrorCallback, (*mitm.Config).H2Config, (*h2.Config).Proxy, (*bufio.Writer).Reset, (*bufio.Reader).Reset, io.MultiReader, bytes.NewReader, net.SplitHostPort, (net.Addr).String
+//@ func (*bufio.ReadWriter).Peek, (*bufio.Reader).Peek, (*bufio.ReadWriter).Read, (*bufio.Reader).Read, tls.Server, (*tls.Conn).HandshakeContext, (*tls.Conn).ConnectionState, (*mitm.Config).TLSForHost, (*mitm.Config).HandshakeErrorCallback, (*mitm.Config).H2Config, (*h2.Config).Proxy, (*bufio.Writer).Reset, (*bufio.Reader).Reset, io.MultiReader, bytes.NewReader, (net.Addr).String
 //@ trusted
 //@ modifies *
 //@ preserves proxyConn.* Proxy.* bufio.ReadWriter.* http.Response.StatusCode http.Response.Request http.Request.Method http.Response.Header http.Request.Header http.Request.URL http.Request.Body http.Response.Body
@@ -320,3 +320,41 @@ package martian
 //@ ensures nWrote() == old(nWrote()) || nWrote() == old(nWrote()) + 1
 //@ ensures upstream() <= old(upstream()) + 1
 //@ ensures upstream() == old(upstream()) + 1 ==> !modReqFailed()
+
+// ---- CONNECT routing (C05 L5.3): exactly the hop the configuration selects ----
+
+// dialed(): the address last handed to the dial function by connect itself;
+// hopURL(): the upstream proxy the CONNECT was last sent through;
+// routeSel()/routeErr(): what the ProxyURL function answered for this request.
+//@ ghost ivar dialed() string
+//@ ghost ivar hopURL() *url.URL
+//@ ghost ivar routeSel() *url.URL
+//@ ghost ivar routeErr() bool
+
+//@ func type:func(*http.Request) (*url.URL, error)
+//@ trusted
+//@ modifies *, routeSel(), routeErr()
+//@ preserves http.Request.* url.URL.* Proxy.*
+//@ ensures routeSel() == result0 && routeErr() == (result1 != nil)
+
+//@ func type:func(context.Context, string, string) (net.Conn, error) as (ctx context.Context, network string, address string) (conn net.Conn, err error)
+//@ trusted
+//@ modifies *, dialed()
+//@ preserves http.Request.* url.URL.* Proxy.*
+//@ ensures dialed() == address
+
+// (the CONNECT exchange with the upstream proxy; dialvia is outside this proof)
+//@ func (*Proxy).connectHTTP, (*Proxy).connectSOCKS5
+//@ trusted
+//@ modifies *, hopURL()
+//@ preserves http.Request.* url.URL.* Proxy.*
+//@ ensures hopURL() == proxyURL
+
+//@ func (*Proxy).connect
+//@ property C05
+//@ requires p != nil && req != nil && req.URL != nil && p.DialContext != nil
+//@ modifies *, dialed(), hopURL(), routeSel(), routeErr()
+//@ ensures old(p.ProxyURL) != nil && routeErr() ==> result0 == nil && result1 == nil && result2 != nil && dialed() == old(dialed()) && hopURL() == old(hopURL())
+//@ ensures old(p.ProxyURL) == nil || (!routeErr() && routeSel() == nil) ==> dialed() == old(req.URL.Host) && hopURL() == old(hopURL())
+//@ ensures old(p.ProxyURL) != nil && !routeErr() && routeSel() != nil && (routeSel().Scheme == "http" || routeSel().Scheme == "https" || routeSel().Scheme == "socks5") ==> hopURL() == routeSel() && dialed() == old(dialed())
+//@ ensures old(p.ProxyURL) != nil && !routeErr() && routeSel() != nil && routeSel().Scheme != "http" && routeSel().Scheme != "https" && routeSel().Scheme != "socks5" ==> result0 == nil && result1 == nil && result2 != nil && dialed() == old(dialed()) && hopURL() == old(hopURL())
